@@ -159,7 +159,7 @@ func forges() []forge {
 		return mustMarshal(wrapSig(slotSet, rb, mustSign(x.s.signKey, rb)))
 	}
 	reenc := func(slot int, raw []byte) []byte { return append(append([]byte{}, raw...), unknownVarintField()...) }
-	return []forge{
+	fs := []forge{
 		// controls
 		{name: "control: rebuilt without any edit", expect: oAccept},
 		{name: "control: timestamps of all three messages changed, re-signed, propagated", expect: oAccept,
@@ -251,6 +251,34 @@ func forges() []forge {
 				h.Version = spacesyncproto.SpaceHeaderVersion_SpaceHeaderVersion0
 			}},
 
+	}
+	// a header version this code does not know must not switch the binding checks off: whatever such a header is taken
+	// for, it still has to commit to these two roots (the version alone, everything else consistent, is informational)
+	for _, v := range []spacesyncproto.SpaceHeaderVersion{2, 3, 100} {
+		v := v
+		setV := func(h *spacesyncproto.SpaceHeader, x *fctx) { h.Version = v }
+		tag := fmt.Sprintf("header.version: unknown value %d", v)
+		fs = append(fs,
+			forge{name: tag + ", everything else consistent", expect: oInfo, hdr: setV},
+			forge{name: tag + " and acl.spaceId + settings.spaceId name another valid space", expect: oHard, only: "v0", hdr: setV,
+				acl: func(a *aclrecordproto.AclRoot, x *fctx) { a.SpaceId = x.donor.P.HdrId },
+				set: func(r *treechangeproto.RootChange, x *fctx) { r.SpaceId = x.donor.P.HdrId }},
+			forge{name: tag + " and acl.spaceId names another valid space", expect: oHard, only: "v0", hdr: setV,
+				acl: func(a *aclrecordproto.AclRoot, x *fctx) { a.SpaceId = x.donor.P.HdrId }},
+			forge{name: tag + " and settings.spaceId names another valid space", expect: oHard, only: "v0", hdr: setV,
+				set: func(r *treechangeproto.RootChange, x *fctx) { r.SpaceId = x.donor.P.HdrId }},
+			forge{name: tag + " and header.aclPayload is another valid space's ACL root", expect: oHard, only: "v1",
+				hdr: func(h *spacesyncproto.SpaceHeader, x *fctx) { h.Version = v; h.AclPayload = x.donor.P.AclRaw }},
+			forge{name: tag + " and header.settingPayload is another valid space's settings root", expect: oHard, only: "v1",
+				hdr: func(h *spacesyncproto.SpaceHeader, x *fctx) { h.Version = v; h.SettingPayload = x.donor.P.SetRaw }},
+			forge{name: tag + " and both embedded payloads are another valid space's roots", expect: oHard, only: "v1",
+				hdr: func(h *spacesyncproto.SpaceHeader, x *fctx) {
+					h.Version = v
+					h.AclPayload, h.SettingPayload = x.donor.P.AclRaw, x.donor.P.SetRaw
+				}},
+		)
+	}
+	fs = append(fs, []forge{
 		// v1, where the property is silent (the header embeds both roots byte for byte): never flagged
 		{name: "settings.aclHeadId: another valid space's ACL root id (header embeds both roots)", expect: oInfo, only: "v1",
 			set: func(r *treechangeproto.RootChange, x *fctx) { r.AclHeadId = x.donor.P.AclId }},
@@ -258,7 +286,8 @@ func forges() []forge {
 			acl: func(a *aclrecordproto.AclRoot, x *fctx) { a.SpaceId = x.donor.P.HdrId }},
 		{name: "settings.spaceId: names another valid space (header embeds the root)", expect: oInfo, only: "v1",
 			set: func(r *treechangeproto.RootChange, x *fctx) { r.SpaceId = x.donor.P.HdrId }},
-	}
+	}...)
+	return fs
 }
 
 // genForged evaluates family D for one seed. Returns false if the assembler's controls failed.
